@@ -495,7 +495,7 @@ def run_part(ctx, build):
                       {"kind": "translator-failed", "stderr": err[-3000:]}, found_input=False)
         return stats
     if out.strip() != "unchanged":
-        ok, log, wall = common.lean_build(["driver"])
+        ok, log, wall = common.lean_build(["drv_codec"])
         stats["table_regenerated_late"] = True
         if not ok:
             ctx.violation("codec|lean-build-after-regeneration", "Lean driver does not build with the regenerated table: " + log[-800:],
